@@ -65,7 +65,7 @@ def build(con, values, ctx, path=(), rec=None, base=0):
             txt = v if isinstance(v, str) else (f"{val:{n}.7E}" if n >= 14 else f"{val:{n}.3f}")
             assert len(txt) <= n, (path, txt, n)
             return txt.rjust(n).encode(), float(txt)
-        txt = "" if v is None else v
+        txt = "" if v is None else (v if isinstance(v, str) else str(v))  # a code given as a number for a field declared as text
         assert len(txt) <= n, (path, txt, n)
         return txt.ljust(n).encode(), txt
     if isinstance(con, D.AsciiComplex):
